@@ -514,6 +514,17 @@ func (t *Task) load(
 	if len(first.Header.Parent) == 32 && !bytes.Equal(localHash, first.Header.Parent) {
 		return nil, ErrReorg
 	}
+	// Partitions are fetched (and cached) independently.
+	// Make sure that they belong to the same chain.
+	for i := 1; i < len(blocks); i++ {
+		prev, curr := blocks[i-1], blocks[i]
+		if len(curr.Header.Parent) != 32 || len(prev.Header.Hash) != 32 {
+			continue
+		}
+		if !bytes.Equal(curr.Header.Parent, prev.Header.Hash) {
+			return nil, fmt.Errorf("loading blocks: %d and %d are not on the same chain", prev.Num(), curr.Num())
+		}
+	}
 	slog.DebugContext(ctx, "load",
 		"n", last.Num(),
 		"h", fmt.Sprintf("%.4x", last.Hash()),
